@@ -1,5 +1,6 @@
 import BinlogVerif.Lemmas.VisitRender
 import BinlogVerif.Lemmas.VisitRenderPP
+import BinlogVerif.Lemmas.VisitRenderPPS
 import BinlogVerif.Lemmas.StrBytes
 import BinlogVerif.Lemmas.E2ESession
 import BinlogVerif.Props.C03
@@ -224,6 +225,115 @@ theorem c07_message_pp (tp : Pretty.TimePrinter) (src : EventSource) (clock : Na
       (hok a ha).2.2.2 (hns a ha))
     _ _ (Nat.lt_succ_self _) []]
   simp
+
+/-- the same loop for ANY rendering function `r` that the visitor realises (`hvisit`), any accumulated output, any sufficient fuel -/
+theorem c07_message_go_gen (r : Ty → Val → Bytes) (tp : Option TimePrinter) (args : List (Ty × Val))
+    (hok : ∀ a ∈ args, TyOk a.1 = true)
+    (hvisit : ∀ a ∈ args, ∀ pre rest, Visit.visit (toStringVisitor tp) (tag a.1) { out := pre } (encode a.1 a.2 ++ rest)
+        = .ok ({ out := pre ++ r a.1 a.2 }, rest))
+    (fuel : Nat) (fmt : Bytes) (hf : fmt.length < fuel) (pre : Bytes) :
+    printEventMessage.go tp fuel fmt (tagList (args.map (·.1))) (args.map fun a => encode a.1 a.2).flatten { out := pre }
+      = .ok { out := pre ++ substitute fmt (args.map fun a => r a.1 a.2) } := by
+  induction fuel generalizing fmt args pre with
+  | zero => omega
+  | succ fuel ih =>
+    match fmt with
+    | [] => simp [printEventMessage.go, substitute]
+    | [c] =>
+      rw [printEventMessage.go]
+      have : ¬ (c = 123 ∧ ([] : Bytes).head? = some 125) := by simp
+      rw [if_neg this]
+      cases fuel with
+      | zero => simp at hf
+      | succ f => simp [printEventMessage.go, substitute, Ts.write]
+    | c :: d :: rest =>
+      rw [printEventMessage.go]
+      simp only [List.head?_cons, Option.some.injEq, List.drop_succ_cons, List.drop_zero]
+      rw [substitute]
+      by_cases hc : c = 123 ∧ d = 125
+      · rw [if_pos hc, if_pos hc]
+        match args with
+        | [] =>
+          simp only [List.map_nil, tagList_nil, tagPop_nil, List.flatten_nil, visit_nil]
+          have := ih [] (by simp) (by simp) rest (by simp at hf; omega) pre
+          simpa [tagList_nil] using this
+        | a :: as =>
+          simp only [List.map_cons, tagList_cons, List.flatten_cons,
+            tagPop_tag a.1 (TyOkN.of_tyOk (hok a (by simp))), hvisit a (by simp)]
+          have := ih as (fun x hx => hok x (by simp [hx])) (fun x hx => hvisit x (by simp [hx])) rest
+            (by simp at hf; omega) (pre ++ r a.1 a.2)
+          rw [this]
+          simp [List.append_assoc]
+      · rw [if_neg hc, if_neg hc]
+        have := ih args hok hvisit (d :: rest) (by simp at hf ⊢; omega) (pre ++ [c])
+        simp only [Ts.write]
+        rw [this]
+        simp [List.append_assoc]
+
+
+/-- every struct of the type is either exactly one of binlog's own adapters that `PrettyPrinter::printStruct` prints
+    specially (`binlog::address`, `std::filesystem::path`, `std::filesystem::directory_entry`, `std::error_code`) or is
+    declined by `printStruct`; decidable by evaluation -/
+abbrev SpecialOk (t : Ty) : Prop := specialOk t = true
+
+/-- `c07_render_refines` for `bread`'s visitor (it has a pretty printer) and the documented rendering in which the
+    adapters are printed specially (`renderPP`): addresses as `0x` + hex, paths / directory entries / error codes as
+    their string — at any nesting depth, with the separators of the enclosing sequence or tuple -/
+theorem c07_render_refines_special (pp : Pretty.TimePrinter) (full : Bytes) (t : Ty) (v : Val) (rest : Bytes) (maxRec : Nat)
+    (hok : TyOk t = true) (hv : hasTy t v = true) (hd : depth t < maxRec)
+    (hes : EmptyStructsOk full t) (hso : SpecialOk t) (s : Ts) (h0 : 0 ≤ s.seqDepth) (hf : s.emptyStruct = false) :
+    ∃ s', Visit.visitImpl (toStringVisitor (some pp)) full maxRec (tag t) s (encode t v ++ rest) = .ok (s', rest)
+      ∧ s'.out = s.out ++ separator s.state ++ renderPP t v
+      ∧ s'.seqDepth = s.seqDepth ∧ s'.emptyStruct = false
+      ∧ (s.state ≠ .normal → s.seqDepth ≠ 0 → s'.state = .seq)
+      ∧ (s.state = .normal → s.seqDepth = 0 → s'.state = .normal) :=
+  renderS_tag full pp t v maxRec s rest hok hv hd hes hso h0 hf
+
+theorem c07_render_append_special (pp : Pretty.TimePrinter) (t : Ty) (v : Val) (rest : Bytes) (pre : Bytes)
+    (hok : TyOk t = true) (hv : hasTy t v = true) (hd : depth t < 2048)
+    (hes : EmptyStructsOk (tag t) t) (hso : SpecialOk t) :
+    Visit.visit (toStringVisitor (some pp)) (tag t) { out := pre } (encode t v ++ rest)
+      = .ok ({ out := pre ++ renderPP t v }, rest) := by
+  obtain ⟨s', e, o, d, f, _, st⟩ :=
+    c07_render_refines_special pp (tag t) t v rest 2048 hok hv hd hes hso { out := pre } (Int.le_refl 0) rfl
+  have hst := st rfl rfl
+  rw [Visit.visit, e]
+  cases s' with
+  | mk state seqDepth emptyStruct out =>
+    simp only at o d f hst
+    subst o d f hst
+    simp [sepOf]
+
+/-- **C07, message, as `bread` prints it, incl. binlog's own adapters**: the format string with each `{}` replaced by
+    the documented rendering of the argument, where addresses, paths, directory entries and error codes — at any nesting
+    depth — are printed as documented. -/
+theorem c07_message_special (pp : Pretty.TimePrinter) (src : EventSource) (clock : Nat) (args : List (Ty × Val))
+    (htags : src.argumentTags = tagList (args.map (·.1)))
+    (hok : ∀ a ∈ args, TyOk a.1 = true ∧ hasTy a.1 a.2 = true ∧ depth a.1 < 2048 ∧ EmptyStructsOk (tag a.1) a.1)
+    (hso : ∀ a ∈ args, SpecialOk a.1) :
+    Pretty.printEventMessage (some pp) ⟨src, clock, (args.map fun a => encode a.1 a.2).flatten⟩
+      = .ok (substitute src.formatString (args.map fun a => renderPP a.1 a.2)) := by
+  unfold Pretty.printEventMessage
+  simp only
+  rw [htags, c07_message_go_gen renderPP (some pp) args (fun a ha => (hok a ha).1)
+    (fun a ha pre rest => c07_render_append_special pp a.1 a.2 rest pre (hok a ha).1 (hok a ha).2.1 (hok a ha).2.2.1
+      (hok a ha).2.2.2 (hso a ha))
+    _ _ (Nat.lt_succ_self _) []]
+  simp
+
+/-- non-vacuity: `BINLOG_INFO("{} at {}", std::vector<std::filesystem::path>{"/a", "b"}, binlog::address(0x2A))` prints
+    `[/a, b] at 0x2A` -/
+def exSpArgs : List (Ty × Val) :=
+  [(.seq (.struct nPath [(strBytes "str", .seq (.arith 99))]), .seq [.tup [.seq [.num 47, .num 97]], .tup [.seq [.num 98]]]),
+   (.struct nAddress [(strBytes "value", .arith 76)], .tup [.num 42])]
+example : (exSpArgs.map fun a => renderPP a.1 a.2) = [strBytes "[/a, b]", strBytes "0x2A"] := by
+  simp only [exSpArgs, List.map, renderPP, renderPPAll, specialStruct, isCharTy, nPath, nAddress, strBytes_eq]
+  decide
+example : ∀ a ∈ exSpArgs, SpecialOk a.1 := by
+  intro a ha
+  simp only [exSpArgs, List.mem_cons, List.not_mem_nil, or_false] at ha
+  rcases ha with rfl | rfl <;>
+    simp only [SpecialOk, specialOk, specialOkFields, specialShape, nPath, nAddress, strBytes_eq] <;> decide
 
 /-- non-vacuity: `BINLOG_INFO("a={} b={}!", int32_t(-2), std::string("hi"))` -/
 def exMsgSrc : EventSource := { id := 1, formatString := [97, 61, 123, 125, 32, 98, 61, 123, 125, 33], argumentTags := [105, 91, 99] }
